@@ -7,12 +7,14 @@ cipher/MAC tables, the ETM/AEAD flag derivation and the `_compute_key` letters a
 `_activate_outbound()` emits NEWKEYS itself: the receiver reads it under the old keys before it
 switches.  No threads (importing vmc.fixtures installs the degraded virtual primitives).
 """
+import errno
 import socket
 
 from . import fixtures as F  # noqa: F401  (installs virtual threading/time into paramiko)
 from . import core
 import paramiko
 from paramiko.message import Message
+from paramiko.packet import NeedRekeyException
 from paramiko.transport import Transport
 
 MSG_NEWKEYS = 21
@@ -34,6 +36,13 @@ class ByteQueue:
     * `timeouts`   - indices of recv calls that raise socket.timeout instead of answering
                      (Packetizer.read_all retries those);
     * empty queue  - raises NeedMoreData (or returns b"" = EOF when `eof` is set).
+
+    How `send(data)` answers is explored as well (C03):
+
+    * `send_max`    - accept at most this many bytes per call (short write; None = everything);
+    * `send_faults` - {index of a send call: "timeout" | "eagain"}: that call accepts nothing and raises
+                      socket.timeout / socket.error(EAGAIN) (Packetizer.write_all retries those).
+    `buf` / `wpos` only ever hold the bytes the socket *accepted*, i.e. what is on the wire.
     """
 
     def __init__(self):
@@ -50,6 +59,11 @@ class ByteQueue:
         self.eof = False
         self.closed = False
         self.timeout = None
+        self.send_max = None
+        self.send_faults = {}
+        self.send_calls = 0
+        self.send_faults_raised = 0
+        self.short_writes = 0
 
     # socket API used by Transport / Packetizer
     def settimeout(self, t):
@@ -65,7 +79,18 @@ class ByteQueue:
         return ("bytequeue", 22)
 
     def send(self, data):
+        idx = self.send_calls
+        self.send_calls += 1
+        fault = self.send_faults.get(idx) if self.send_faults else None
+        if fault is not None:
+            self.send_faults_raised += 1
+            if fault == "timeout":
+                raise socket.timeout()
+            raise socket.error(errno.EAGAIN, "Resource temporarily unavailable")
         data = bytes(data)
+        if self.send_max is not None and len(data) > self.send_max:
+            data = data[:self.send_max]
+            self.short_writes += 1
         self.chunks.append(data)
         self.buf += data
         self.wpos += len(data)
@@ -163,13 +188,22 @@ class _Hash:
         self.hash_algo = algo
 
 
-def key_transport(t, suite, K=K0, H=H0, session_id=SID0, hash_algo=None, strict=False):
-    """Put the negotiated state that `_activate_*` reads onto an un-started Transport."""
+def key_transport(t, suite, K=K0, H=H0, session_id=SID0, hash_algo=None, strict=False, other=None,
+                  sending=True):
+    """Put the negotiated state that `_activate_*` reads onto an un-started Transport.
+
+    `suite` is what was negotiated for the direction this Transport is used for (its outbound direction
+    when `sending`, else its inbound one); `other` = (cipher, mac, compression) negotiated for the
+    opposite direction (RFC 4253 7.1 negotiates the two directions independently); None = same suite."""
     cipher, mac, comp = suite
+    ocipher, omac, ocomp = other if other is not None else suite
     t.K, t.H, t.session_id = K, H, session_id
-    t.local_cipher = t.remote_cipher = cipher
-    t.local_mac = t.remote_mac = mac
-    t.local_compression = t.remote_compression = comp
+    if sending:
+        t.local_cipher, t.local_mac, t.local_compression = cipher, mac, comp
+        t.remote_cipher, t.remote_mac, t.remote_compression = ocipher, omac, ocomp
+    else:
+        t.remote_cipher, t.remote_mac, t.remote_compression = cipher, mac, comp
+        t.local_cipher, t.local_mac, t.local_compression = ocipher, omac, ocomp
     t.kex_engine = _Hash(hash_algo) if hash_algo is not None else None   # None -> sha1 fallback
     t.agreed_on_strict_kex = strict
     if not hasattr(t, "_remote_ext_info"):
@@ -191,23 +225,33 @@ class Link:
         self.rx.server_mode = direction == "c2s"
         self.tx_switches = 0
         self.rx_switches = 0
+        self.rekey_signals = 0
 
-    def tx_switch(self, suite, strict=False, hash_algo=None, K=None, H=None):
+    def tx_switch(self, suite, strict=False, hash_algo=None, K=None, H=None, other=None):
         i = self.tx_switches
         self.tx_switches += 1
         key_transport(self.tx, suite, K_n(i) if K is None else K, H_n(i) if H is None else H,
-                      SID0, hash_algo, strict)
+                      SID0, hash_algo, strict, other=other, sending=True)
         self.tx._activate_outbound()       # sends NEWKEYS under the old keys, then switches
 
-    def rx_switch(self, suite, strict=False, hash_algo=None, K=None, H=None):
+    def rx_switch(self, suite, strict=False, hash_algo=None, K=None, H=None, other=None):
         i = self.rx_switches
         self.rx_switches += 1
-        ptype, m = self.rx.packetizer.read_message()
+        ptype, m = self._read_message()
         if ptype != MSG_NEWKEYS or m.asbytes() != b"":
             raise NotNewkeys("expected NEWKEYS, read type %d (%d body bytes)" % (ptype, len(m.asbytes())))
         key_transport(self.rx, suite, K_n(i) if K is None else K, H_n(i) if H is None else H,
-                      SID0, hash_algo, strict)
+                      SID0, hash_algo, strict, other=other, sending=False)
         self.rx._activate_inbound()
+
+    def _read_message(self):
+        """read_message the way Transport.run drives it: NeedRekeyException ("a re-key is due and nothing has
+        arrived yet") only means "start a re-exchange and call me again" - no byte may be lost over it."""
+        while True:
+            try:
+                return self.rx.packetizer.read_message()
+            except NeedRekeyException:
+                self.rekey_signals += 1
 
     def switch(self, suite, strict=False, hash_algo=None):
         self.tx_switch(suite, strict, hash_algo)
@@ -220,7 +264,7 @@ class Link:
         self.tx.packetizer.send_message(m)
 
     def read(self):
-        ptype, m = self.rx.packetizer.read_message()
+        ptype, m = self._read_message()
         return ptype, m.asbytes()
 
 
@@ -245,10 +289,16 @@ def script_messages(script):
     return [payload(it[1], it[4], it[2], it[3]) for it in script if it[0] == "msg"]
 
 
-def transmit(direction, script, tclass=Transport):
-    """Run the sender half of a script.  Returns (stream bytes, per-item wire chunks, messages sent)."""
+def transmit(direction, script, tclass=Transport, send_max=None, send_faults=None):
+    """Run the sender half of a script.  Returns (stream bytes, per-item wire bytes, messages sent).
+
+    send_max / send_faults: how the socket answers send() (see ByteQueue).  The per-item wire bytes are what the
+    socket accepted while that item's send_message ran; without a send policy that must be one send() call."""
     link = Link(direction, tclass)
+    q = link.q
+    q.send_max, q.send_faults = send_max, dict(send_faults or {})
     sent = []
+    marks = [q.wpos]
     for it in script:
         if it[0] == "switch":
             link.tx_switch((it[1], it[2], it[3]), strict=it[4])
@@ -256,10 +306,20 @@ def transmit(direction, script, tclass=Transport):
             data = payload(it[1], it[4], it[2], it[3])
             link.send(data)
             sent.append(data)
-    chunks = link.q.take_chunks()
-    if len(chunks) != len(script):
-        raise AssertionError("seam: %d socket writes for %d script items" % (len(chunks), len(script)))
-    return link.q.drain(), chunks, sent
+        marks.append(q.wpos)
+    calls = q.take_chunks()
+    transmit.last = {"send_calls": q.send_calls, "short_writes": q.short_writes,
+                     "send_faults_raised": q.send_faults_raised}
+    stream = q.drain()
+    if send_max is None and not send_faults:
+        if len(calls) != len(script):
+            raise AssertionError("seam: %d socket writes for %d script items" % (len(calls), len(script)))
+        return stream, calls, sent
+    chunks = [stream[marks[i] - marks[0]:marks[i + 1] - marks[0]] for i in range(len(script))]
+    return stream, chunks, sent
+
+
+transmit.last = {}
 
 
 class Received:
@@ -275,17 +335,26 @@ class Received:
         self.short_reads = 0
         self.item = None        # index of the script item being read when reading ended
         self.done = 0           # packets consumed successfully (script items + extra reads)
+        self.rekey_signals = 0  # NeedRekeyException raised by read_message (the reader just calls it again)
+        self.rekey_pending = False   # receiver's need_rekey flag when reading ended
 
 
 def receive(direction, script, stream, max_chunk=None, cuts=(), timeouts=(), tclass=Transport,
-            extra_reads=0):
+            extra_reads=0, eof=False, rekey_after=None):
     """Run the receiver half of a script over `stream` (possibly edited) with the given recv answers.
 
-    extra_reads: after the script, keep calling read_message that many more times (tamper checks)."""
+    extra_reads: after the script, keep calling read_message that many more times (tamper checks).
+    eof: once the stream is used up recv() returns b"" (the connection was closed) instead of blocking.
+    rekey_after: the receiver's own REKEY_PACKETS threshold - after that many packets under one key set its
+        packetizer flags "re-key due" (need_rekey) and stays in that state, as it does on a live connection until
+        the peer has answered the re-exchange; the sender's in-flight packets must still all be delivered."""
     link = Link(direction, tclass)
     q = link.q
     q.feed(stream)
     q.max_chunk, q.cuts, q.timeouts = max_chunk, tuple(sorted(cuts)), frozenset(timeouts)
+    q.eof = eof
+    if rekey_after is not None:
+        link.rx.packetizer.REKEY_PACKETS = rekey_after
     r = Received()
     i = 0
     try:
@@ -310,6 +379,8 @@ def receive(direction, script, stream, max_chunk=None, cuts=(), timeouts=(), tcl
         r.item = i
     r.leftover = len(q.buf)
     r.recv_calls, r.timeouts_raised, r.short_reads = q.recv_calls, q.timeouts_raised, q.short_reads
+    r.rekey_signals = link.rekey_signals
+    r.rekey_pending = bool(link.rx.packetizer.need_rekey())
     return r
 
 
